@@ -616,3 +616,106 @@ variant('b-reset-no-drain', ['C17'], B,
             self.stop_all_streams()
 
 """, "", ('C17.d', '_reset_internals'))
+
+# ----------------------------------------------------------------------------------------------- C02
+F = 'rsocket/frame.py'
+FH = 'rsocket/frame_helpers.py'
+variant('b-resume-positions-swapped', ['C02'], F,
+        """        middle += pack_position(self.last_server_position)
+        middle += pack_position(self.first_client_position)""", """        middle += pack_position(self.first_client_position)
+        middle += pack_position(self.last_server_position)""", ('C02.a', 'ResumeFrame'))
+variant('b-setup-cursor-short', ['C02'], F,
+        """            struct.unpack_from('>HHII', buffer, offset))
+
+        offset += 12""", """            struct.unpack_from('>HHII', buffer, offset))
+
+        offset += 10""", ('C02', 'SetupFrame'))
+variant('b-keepalive-wrong-flag-bit', ['C02'], F,
+        """        flags &= ~_FLAG_RESPOND_BIT
+        if self.flags_respond:
+            flags |= _FLAG_RESPOND_BIT""", """        flags &= ~_FLAG_RESPOND_BIT
+        if self.flags_respond:
+            flags |= _FLAG_COMPLETE_BIT""", ('C02.c', 'KeepAliveFrame'))
+variant('b-native-position-unmasked', ['C02'], FH,
+        "        return struct.unpack('>Q', chunk)[0] & MASK_63_BITS", "        return struct.unpack('>Q', chunk)[0]",
+        ('C02', ''))
+variant('b-incremental-writes-flagged-metadata', ['C02'], F,
+        """    def write_data_metadata(self, writer_method):
+        if self.metadata:
+            writer_method(self.metadata)""", """    def write_data_metadata(self, writer_method):
+        if self.flags_metadata:
+            writer_method(self.metadata)""", ('C02.e', 'metadata bytes'))
+variant('b-prefix-length-ignores-metadata-only', ['C02'], F,
+        """        if self.flags_metadata and self.metadata:
+            if not self.metadata_only:
+                length += 3
+
+        return length""", """        if self.flags_metadata and self.metadata:
+            length += 3
+
+        return length""", ('C02.e', 'metadata length field'))
+variant('b-setup-version-format', ['C02'], F,
+        """        middle = struct.pack(
+            '>HHII', self.major_version, self.minor_version,""", """        middle = struct.pack(
+            '>HBII', self.major_version, self.minor_version,""", ('C02.a', 'SetupFrame'))
+variant('b-lease-reader-unmasked', ['C02'], F,
+        "        self.number_of_requests = number_of_requests & MASK_31_BITS",
+        "        self.number_of_requests = number_of_requests", ('C02.a', 'LeaseFrame'))
+variant('b-request-n-reader-offset', ['C02'], F,
+        """        ParseHelper.parse_header(self, buffer, offset)
+        offset += HEADER_LENGTH
+        self.request_n = unpack_32bit(buffer, offset)""", """        ParseHelper.parse_header(self, buffer, offset)
+        offset += HEADER_LENGTH - 1
+        self.request_n = unpack_32bit(buffer, offset)""", ('C02', 'RequestNFrame'))
+variant('b-payload-next-not-forced', ['C02'], F,
+        """        if not is_blank(self.data) or not is_blank(self.metadata):
+            self.flags_next = True
+""", "", ('C02.f', 'PayloadFrame'))
+variant('b-payload-next-only-data', ['C02'], F,
+        "        if not is_blank(self.data) or not is_blank(self.metadata):", "        if not is_blank(self.data):",
+        ('C02.f', 'PayloadFrame'))
+variant('b-header-native-flag-shift', ['C02'], F,
+        "    flag_bits |= (frame.frame_type & 3) << 8", "    flag_bits |= (frame.frame_type & 1) << 8", ('C02', ''))
+variant('b-channel-complete-read-from-follows', ['C02'], F,
+        """        self.flags_complete = flags.flags_complete_lease
+        self.flags_follows = flags.flags_follows_resume_respond
+        self.initial_request_n""", """        self.flags_complete = flags.flags_follows_resume_respond
+        self.flags_follows = flags.flags_follows_resume_respond
+        self.initial_request_n""", ('C02.c', 'RequestChannelFrame'))
+variant('b-size-header-two-bytes', ['C02'], F,
+        """    serialized_frame_prefix = frame.serialize_frame_prefix()
+    header = struct.pack('>I', frame.length)[1:]""", """    serialized_frame_prefix = frame.serialize_frame_prefix()
+    header = struct.pack('>I', frame.length)[2:]""", ('C02.e', 'serialize_prefix_with_frame_size_header'))
+variant('b-size-header-stale-length', ['C02'], F,
+        """    serialized_frame_prefix = frame.serialize_frame_prefix()
+    header = struct.pack('>I', frame.length)[1:]
+    full_frame = header + serialized_frame_prefix""", """    header = struct.pack('>I', frame.length)[1:]
+    serialized_frame_prefix = frame.serialize_frame_prefix()
+    full_frame = header + serialized_frame_prefix""", ('C02.e', 'serialize_prefix_with_frame_size_header'))
+variant('b-pack-24bit-native-wrong-slice', ['C02'], FH,
+        "        return struct.pack('>I', length)[1:]", "        return struct.pack('>I', length)[:3]", ('C02', ''))
+variant('b-error-code-16bit', ['C02'], F,
+        "        middle = struct.pack('>I', self.error_code)", "        middle = struct.pack('>H', self.error_code)",
+        ('C02.a', 'ErrorFrame'))
+variant('b-registry-swapped', ['C02'], F,
+        """    FrameType.REQUEST_N: RequestNFrame,
+    FrameType.CANCEL: CancelFrame,""", """    FrameType.REQUEST_N: CancelFrame,
+    FrameType.CANCEL: RequestNFrame,""", ('C02.c', 'registry'))
+variant('t-setup-unpack-split', ['C02'], F,
+        """        (self.major_version, self.minor_version,
+         self.keep_alive_milliseconds, self.max_lifetime_milliseconds) = (
+            struct.unpack_from('>HHII', buffer, offset))
+
+        offset += 12""", """        self.major_version, self.minor_version = struct.unpack_from('>HH', buffer, offset)
+        offset += 4
+        self.keep_alive_milliseconds, self.max_lifetime_milliseconds = struct.unpack_from('>II', buffer, offset)
+        offset += 8""", kind='twin')
+variant('t-mask-literal-rewritten', ['C02'], F,
+        "MASK_31_BITS = 0x7FFFFFFF", "MASK_31_BITS = 2147483647", kind='twin')
+variant('t-flag-literal-rewritten', ['C02'], F,
+        "_FLAG_COMPLETE_BIT = 0x40", "_FLAG_COMPLETE_BIT = 1 << 6", kind='twin')
+variant('t-lease-writer-separate-packs', ['C02'], F,
+        """        middle = struct.pack('>II',
+                             self.time_to_live & MASK_31_BITS,
+                             self.number_of_requests & MASK_31_BITS)""", """        middle = struct.pack('>I', self.time_to_live & MASK_31_BITS)
+        middle += struct.pack('>I', self.number_of_requests & MASK_31_BITS)""", kind='twin')
